@@ -16,8 +16,11 @@ MANIFEST = dict(
               'PHYSCOLLIDE blocks, DeferredWrites) + generic theorems over format/layout/guard/dispatch/field-order/template/dedup-key/'
               'helper-property/loop-shape/rebuild-order/physics-header tables regenerated from bsp.py, binformat.py and vmf.py by fail-closed '
               'ast translators + vm_compute correspondence (struct, RLE, row size, find_or_insert/extend with and without key, texture table, '
-              'entity lump, PHYSCOLLIDE, DeferredWrites; byte-exact) + field-by-field save/re-read oracle',
-    text='Theorems in Props/C11.v (55): for every struct format of the modelled language and every fitting record unpack(pack v) = v; '
+              'entity lump, PHYSCOLLIDE, DeferredWrites; byte-exact) + static-prop format selection tabulated by EXECUTING the heads of '
+              '_lmp_read_props / _lmp_write_props over the ast for every (BSP version, header number, record size, format named), compared '
+              'exhaustively with the implementation + field-by-field save/re-read oracle incl. histories (file with empty tables read first; '
+              'nothing read; format named)',
+    text='Theorems in Props/C11.v (63): for every struct format of the modelled language and every fitting record unpack(pack v) = v; '
          'pack succeeds only if every integer is inside its field (out-of-range raises); Ns fields pad and silently truncate, '
          'so a guarded site never truncates; run-length decoding inverts encoding for every byte list, alone and at its offset '
          'inside the lump; an integer expression that passes the decision procedure rowsize_ok equals ceil(n/8) for EVERY cluster count and '
@@ -44,7 +47,13 @@ MANIFEST = dict(
          'index, solids as length + bytes, keyvalues text + NUL, sentinel header) is read back unchanged when both sides use one order of '
          'the four header values, one sentinel and one order of the sections (a swapped header is refuted); a file written with '
          'DeferredWrites (slots reserved, set later, filled in at the end) is the file of a two-pass writer in which every slot holds the '
-         'value set last for its key (a slot never set is an error); the sprite dictionary entry of a sprite / shape detail prop is read back slot by slot when both sides name one attribute component per slot (sprite_dict_roundtrip). '
+         'value set last for its key (a slot never set is an error); the sprite dictionary entry of a sprite / shape detail prop is read back slot by slot when both sides name one attribute component per slot (sprite_dict_roundtrip); '
+         'the static-prop FORMAT - chosen by the reader of one file from (BSP version, header number, record size), recorded in the BSP object and '
+         'used by the writer of the next - is found again by a fresh reader of the saved file in every history that leads to the writer: the lump '
+         'was EMPTY when read (the guess made from the header number alone), the lump was never read (the writer\'s fallback and the header '
+         'number it sets), the caller named the format (kept by the reader of an empty lump, written under its own header number, found again '
+         'when no other format shares header number and record size) - static_prop_format_property, generic over the generated tables; a '
+         'first-match guess and a header number left as the opened file had it are refuted. '
          'Generic over the tables generated from today\'s source: every reader/writer site '
          'pair of every lump uses one layout in each of the five layout tables; for 23 record variants (planes, vertexes, primitives, faces, '
          'brush sides, brushes, leaf water data, leafs, nodes, texdata, texinfo, brush models, cubemaps, overlay fades/system levels, the three '
@@ -53,15 +62,25 @@ MANIFEST = dict(
          'reader\'s size for every face count; each detail-prop class is written by its own branch; all 28 index tables of the writers have a '
          'key that determines the record; all 8 loops over local index tables reach every entry; the rebuild order is topological for the 28 '
          'append edges. The premises are kernel-checked for '
-         'today\'s source on every run (249 obligations). Models are compared byte-exactly with CPython struct, runlength_encode/decode, '
+         'today\'s source on every run (291 obligations). Models are compared byte-exactly with CPython struct, runlength_encode/decode, '
          'binformat.find_or_* (with key functions), binformat.DeferredWrites, _lmp_write/read_textures, write_ent_data/_lmp_read_ents, the '
          'PHYSCOLLIDE lump of _lmp_write/read_bmodels; generated lump contents (incl. '
          'near-duplicate objects, and objects reachable ONLY through references of other objects - grafted sub-trees of nodes, leafs, faces, '
          'original faces, brushes, sides, planes, texinfo, texdata at depth >= 2) are assigned to all 20 views '
          'of a base BSP in 7 layouts x 13 static-prop versions, saved, re-read and compared field by field; in a fifth of the worlds the '
-         're-read objects are then changed in place and the same BSP object is saved and re-read again; values that do not fit must raise; '
+         're-read objects are then changed in place and the same BSP object is saved and re-read again; the re-read file has to say by itself '
+         'which static-prop format it holds (only V11-in-a-v20-file / Mesa-elsewhere, which no file can tell apart, are named to the reader); '
+         'histories: a file whose static-prop / detail-prop / overlay / cubemap tables are empty is read view by view, then a world is '
+         'assigned to the same object (every layout x every header number), the same with nothing read, the same with the format named '
+         'before the empty lump is read; values that do not fit must raise; '
          'every call into the implementation runs under a time limit (a hang is reported as a failing input).',
-    note='Partial: instance-name prefixes of outputs and mapversion are searched, not modelled; the '
+    note='Partial: instance-name prefixes of outputs and mapversion are searched, not modelled; the static-prop format tables are produced '
+         'by a small interpreter (translate/c11_propver.py: if / for over the enum / break / try-except / assignments / helper methods; '
+         'fail-closed outside that language) - it is CHECKED, not trusted: every row is compared with the running implementation; what stays '
+         'trusted there is that the record loops use the locals `version` / `vers_num` the tables end with (the per-format ladders are '
+         'generated separately: prop_layout_agree). Two formats share (header 11, 80 bytes): which one a file holds is decided by the BSP '
+         'version alone (20 = Black Mesa\'s variant), so V11 records in a v20 file / Mesa records elsewhere are outside the claim unless the '
+         'caller names the format to the reader. The '
          'keyvalues text inside a physics block is opaque (its syntax is C01\'s). The work-list theorem is about the loop shape read from the '
          'source (which list is iterated, live or snapshot, where the finder closure is used); that the body turns EVERY reference of the '
          'record into an index through the finder is covered by record_fields_agree:nodes. Field orders are generated by a name-based '
@@ -1475,7 +1494,10 @@ def run(ck: Ck) -> None:
                'physics blocks: 1-5 brush models with 0-3 solids of 0-300 bytes and keyvalues text or none, non-trivial = at least two blocks; '
                'DeferredWrites: sequences of write / defer / set_data calls over 4 keys (keys deferred twice, slots never set, keys never '
                'deferred included), non-trivial = at least two slots and a file results; worlds with the feature grafted contain objects '
-               'reachable only through references (depth >= 2), worlds with resave are changed in place after the re-read and saved again')
+               'reachable only through references (depth >= 2), worlds with resave are changed in place after the re-read and saved again; '
+               'histories: (layout in 7) x (static-prop header number in 4..13) x {empty tables read first, nothing read, format named first}, the '
+               'world assigned afterwards has at least one static prop and one detail prop, distinct by layout/header/seed; static-prop '
+               'format tables: the complete domain (12 BSP versions x 16 header numbers x 12 record sizes x 14 formats named), every row compared')
     ck.trusted.append('hand-written models Bin/Struct.v, Bin/RLE.v, Bin/FindInsert.v, Fmt/BspTexStrings.v, Fmt/BspEntLump.v (+ Fmt/VmfText.hs) '
                       '(tied by byte-exact correspondence on every run)')
     ck.trusted.append('translate/c11_records.py: name-based data-flow analysis that labels every struct slot with the attributes it carries; '
@@ -1490,6 +1512,8 @@ def run(ck: Ck) -> None:
     ck.trusted.append('hand models Fmt/BspWorklist.v (Python list iteration over a growing list = position compared with the current length on '
                       'every step), Fmt/BspPhys.v, Bin/BspDeferred.v (DeferredWrites over a file that is only appended to before the final pass); '
                       'translate/c11_worklist.py (which loops walk a finder table, position-based inside/after classification), c11_phys.py')
+    ck.trusted.append('Fmt/BspPropVersion.v gives the generated static-prop format tables their meaning (histories of read / write calls); the tables '
+                      'themselves are compared row by row with _lmp_read_props / _lmp_write_props on every run (correspondence prop_version_choice)')
     ck.assumptions.append('x86-64 little-endian host: the few native-order formats of bsp.py (i, ii, fff) are identified with their "<" forms; '
                           'the model accepts native formats only when all fields are numbers of one size (no alignment padding possible)')
     ck.assumptions.append('math.ceil(n / 8) is modelled as the exact rational ceiling (CPython float division by 8 is exact for n < 2^53)')
